@@ -103,7 +103,7 @@ fn scan(prop: &str, what: &str, i: u64, cap: capture::Capture, out: &mut Outcome
 pub fn run(ctx: &Ctx) -> i32 {
     capture::install();
     let dir = ctx.scratch_dir("c14");
-    let n = ctx.budget(420, 12_000) as u64;
+    let n = ctx.budget(1500, 24_000) as u64;
     let out = crate::par::run(ctx, n, std::time::Duration::from_secs(ctx.tier.pick(100, 1200)), |i, rng, out| {
         out.evaluations += 1;
         let mut scratch = Outcome::default();
